@@ -120,11 +120,13 @@ CHECKS = {
  ),
  "C14": dict(
   text=("route_exclusive (any table), mount_union_* (keys, listdir, contains, is_dir, metadata key as the re-prefixed union, for every table satisfying "
-        "tableWF, any number of mounts), write exclusivity/frame, to_root_key for owned keys. Two full statements are false for the code and kept "
-        "statement-only with decide-refutations (known findings D7f, D7g). Correspondence: all mount tables <= 3 mounts over {a,a/b,c,c/d,ab,c/dd} (names that extend each other as text but not as paths), nested mount-point stores of depth 2-3 x "
-        "{memory,file} x default {none,empty,populated} with generated histories; oracle = union of the parts."),
-  note=("Trusted: Lean kernel; LiquerModel/StoreMount.lean mirror of MountPointStore/PrefixStore (as fixed by the D7a-e commits); partial: "
-        "mount_keys_complete and to_root_key_reaches hold only under the stated hypotheses."),
+        "tableWF, any number of mounts), mount_keys_complete / mount_keys_exact / mount_keys_once (keys() lists exactly the contained non-root keys, each once: mount points, their parents, the parts' keys "
+        "re-prefixed, unshadowed default-store keys), write exclusivity/frame, to_root_key for owned keys and through any depth of nested translating layers (to_root_key_chain, to_root_key_nested_reaches). "
+        "to_root_key_reaches_statement without the ownership hypothesis is false (an inner mount shadows the root key) and kept statement-only with its refutation. Correspondence: all mount tables <= 3 mounts "
+        "over {a,a/b,c,c/d,ab,c/dd} (names that extend each other as text but not as paths) x {memory,file} x default {none,empty,populated} with generated histories, nested mount-point stores of depth 2-3, a "
+        "mounted RecipeSpecStore (recipes_key); oracle = union of the parts."),
+  note=("Trusted: Lean kernel; LiquerModel/StoreMount.lean mirror of MountPointStore/PrefixStore (as fixed by the D7a-g commits); a recursive removedir reaching a mount point deletes what is below and then "
+        "raises (modelled as it is)."),
  ),
  "C11": dict(
   text=("Dispatch and framing are proved: c11_dispatch over the regenerated registry (identifier and qualified name select the same type; default "
@@ -132,7 +134,7 @@ CHECKS = {
         "every string), c11_djson (line-oriented dictionary framing for any dictionary under the element law), c11_register_selects / _frame / _history (after any "
         "history of StateTypesRegistry.register calls the last registration is consistent: type name and recorded identifier select the same object). The codecs themselves (json, pickle, "
         "pandas/pyarrow) enter as explicit CodecLaw hypotheses and are validated differentially only (partial)."),
-  note=("Trusted: Lean kernel; extract.py probing of writes/reads sets on sample values; third-party codecs (hypotheses of the theorems)."),
+  note=("Trusted: Lean kernel; extract.py probing of writes/reads sets on sample values; third-party codecs json / pickle / pandas / polars / base64 (hypotheses of the theorems); the text and bytes codecs are LiQuer's own and proved (c11_text_codec_law, c11_bytes_codec_law, c11_own_roundtrip: strict UTF-8, no hypothesis left)."),
  ),
  "C20": dict(
   text=("c20_gate for all enable/disable/register histories; c20_wire (unquote . quote = id for every text, from the C03 lemmas); serve never 2xx on "
